@@ -16,6 +16,7 @@ import (
 	"os"
 	"strings"
 	"sync"
+	"sync/atomic"
 	"time"
 
 	"github.com/prometheus/client_golang/prometheus"
@@ -30,7 +31,8 @@ import (
 func init() {
 	subcommands["exploreflood"] = func(args []string) int {
 		fs := flag.NewFlagSet("exploreflood", flag.ExitOnError)
-		n := fs.Int("n", 10003, "number of targets (queue capacity + workers + 2)")
+		n := fs.Int("n", 10060, "number of targets (more than queue capacity + workers)")
+		workers := fs.Int("workers", 4, "probe workers")
 		out := fs.String("out", "", "file for the failing history")
 		_ = fs.Parse(args)
 
@@ -56,7 +58,7 @@ func init() {
 		e.VerifSetProbe(probe)
 		ctx, cancel := context.WithCancel(context.Background())
 		defer cancel()
-		go func() { _ = e.Run(ctx, 1) }()
+		go func() { _ = e.Run(ctx, *workers) }()
 
 		var ts []*discovery.SDTargets
 		for h := 1; h <= *n; h++ {
@@ -64,31 +66,54 @@ func init() {
 				{Name: "__address__", Value: fmt.Sprintf("t%d:80", h)}, {Name: "__metrics_path__", Value: "/metrics"}, {Name: "__scheme__", Value: "http"}}}})
 		}
 		e.UpdateTargets(map[string][]*discovery.SDTargets{"job0": ts})
-		askAll := func() bool {
+		var asked int64
+		askAll := func() chan struct{} {
 			done := make(chan struct{})
 			go func() {
 				for h := 1; h <= *n; h++ {
 					e.Get(uint64(h))
+					atomic.AddInt64(&asked, 1)
 				}
 				close(done)
 			}()
-			select {
-			case <-done:
-				return true
-			case <-time.After(20 * time.Second):
-				return false
-			}
+			return done
 		}
-		res := map[string]interface{}{"targets": *n}
-		if !askAll() {
-			// the send blocks while the queue is full: the documented behaviour, nothing is dropped
-			res["blocked"] = true
+		res := map[string]interface{}{"targets": *n, "workers": *workers}
+		fail := func(what string) int {
+			res["what"] = what
+			res["history"] = fmt.Sprintf("%d workers, every probe hangs; update{job0: 1..%d}; Get(1..%d) until nothing moves; release all probes (success); wait; Get(1..%d); wait", *workers, *n, *n, *n)
 			b, _ := json.Marshal(res)
 			fmt.Println(string(b))
-			close(release)
-			return 0
+			if *out != "" {
+				_ = os.WriteFile(*out, b, 0o644)
+			}
+			return 1
 		}
+		// ask until every target was asked for or nothing moves any more (the documented behaviour of a full queue:
+		// Get waits)
+		first := askAll()
+		last, stable := int64(-1), 0
+		for stable < 15 {
+			select {
+			case <-first:
+				stable = 99
+			case <-time.After(100 * time.Millisecond):
+				cur := atomic.LoadInt64(&asked)
+				if cur == last {
+					stable++
+				} else {
+					last, stable = cur, 0
+				}
+			}
+		}
+		res["asked_before_release"] = atomic.LoadInt64(&asked)
 		close(release) // every probe succeeds at once from now on
+		select {
+		case <-first:
+		case <-time.After(40 * time.Second):
+			res["asked_after_release"] = atomic.LoadInt64(&asked)
+			return fail("Get never returns although every probe has finished: the workers and Get wait for each other (targets lock vs. full queue)")
+		}
 		quiet := func() {
 			last, stable := -1, 0
 			for i := 0; i < 400 && stable < 5; i++ {
@@ -104,7 +129,11 @@ func init() {
 			}
 		}
 		quiet()
-		askAll()
+		select {
+		case <-askAll():
+		case <-time.After(40 * time.Second):
+			return fail("the second round of Get never returns")
+		}
 		quiet()
 		mu.Lock()
 		var never []uint64
@@ -120,17 +149,10 @@ func init() {
 				never = never[:10]
 			}
 			res["first_never_probed"] = never
-			res["history"] = fmt.Sprintf("1 worker, every probe hangs; update{job0: 1..%d}; Get(1..%d); release all probes (success); wait; Get(1..%d); wait", *n, *n, *n)
-			res["what"] = "targets asked for twice are never probed: the work queue dropped them and their one-shot flag stays set"
+			return fail("targets asked for twice are never probed: the work queue dropped them and their one-shot flag stays set")
 		}
 		b, _ := json.Marshal(res)
 		fmt.Println(string(b))
-		if *out != "" && len(never) > 0 {
-			_ = os.WriteFile(*out, b, 0o644)
-		}
-		if len(never) > 0 {
-			return 1
-		}
 		return 0
 	}
 }
